@@ -183,10 +183,319 @@ theorem pushByte_look_more {d : Dec} {disc k : Nat} {b : UInt8} (hst : d.st = .l
         · simp [hb, h4]
         · simp [hb, h4]
       · simp [hb]
+    simp only [Dec.pushByte, Dec.pushLook, if_neg hc]
     generalize (if b = 0x1b then (if k = 4 then 4 else 1) else 0 : Nat) = keep at hkeep h8 ⊢
     have hlt : ¬ (1 + k < keep) := by omega
-    simp only [Dec.pushByte, Dec.pushLook, if_neg hc]
-    sorry
+    rw [if_neg hlt]
+    have : disc + (1 + k - keep) = disc + k + 1 - keep := by omega
+    rw [this]
+
+theorem pushByte_look_hit {d : Dec} {disc k : Nat} {b : UInt8} (hst : d.st = .look disc k)
+    (hk : k ≤ 7) (h8 : delta k b = 8) :
+    d.pushByte b =
+      ({ d with raw := 8, crc := startCrc, st := .normal },
+        if disc > 0 then .err (.discarded disc) else .more) := by
+  obtain ⟨hk7, hb⟩ := (delta_eq_8 hk).1 h8
+  subst hk7 hb
+  obtain ⟨r, c, s, z, bf⟩ := d
+  simp only at hst
+  subst hst
+  simp only [Dec.pushByte, Dec.pushLook]
+  by_cases hd : disc > 0
+  · simp [hd]
+  · simp [hd]
+
+/-- Bytes after which the consumed input never ends with the start sequence are consumed
+silently; the matcher state keeps tracking. `r` = the bytes consumed before, newest first. -/
+theorem look_quiet (s : List UInt8) : ∀ (r : List UInt8) (d : Dec) (disc k : Nat), Tracks r k →
+    d.st = .look disc k →
+    (∀ i, i < s.length → ¬ pre 8 <+: (s.take (i + 1)).reverse ++ r) →
+    ∃ disc' k', Tracks (s.reverse ++ r) k' ∧ disc' + k' = disc + k + s.length ∧
+      d.quiet s = some { d with raw := d.raw + s.length, st := .look disc' k' } := by
+  induction s with
+  | nil =>
+    intro r d disc k ht hst _
+    refine ⟨disc, k, by simpa using ht, by simp, ?_⟩
+    obtain ⟨r', c, s, z, bf⟩ := d
+    simp only at hst
+    subst hst
+    rfl
+  | cons b s ih =>
+    intro r d disc k ht hst hfree
+    have h8 : delta k b ≠ 8 := by
+      intro h
+      have := (hit_iff ht b).1 h
+      exact hfree 0 (by simp) (by simpa using this)
+    have hstep := pushByte_look_more hst ht.le h8
+    have ht' := tracks_step ht b h8
+    obtain ⟨disc', k', h1, h2, h3⟩ := ih (b :: r)
+      { d with raw := d.raw + 1, st := .look (disc + k + 1 - delta k b) (delta k b) } _ _ ht' rfl (by
+      intro i hi
+      have := hfree (i + 1) (by simpa using hi)
+      simpa [List.take_succ_cons] using this)
+    refine ⟨disc', k', by simpa using h1, ?_, ?_⟩
+    · have := ht.le
+      have hd : delta k b ≤ k + 1 := by
+        unfold delta; split
+        · omega
+        · split
+          · split <;> omega
+          · omega
+      simp only [List.length_cons]
+      omega
+    · rw [Dec.quiet_cons_of hstep, h3]
+      simp only [List.length_cons]
+      congr 2
+      omega
+
+/-! ### noise, then the start sequence -/
+
+theorem pre8 : pre 8 = START.reverse := by decide
+
+/-- in `g ++ START` with the start sequence only at offset `|g|`, no prefix shorter than the whole
+ends with the start sequence -/
+theorem free_prefix {g : List UInt8}
+    (hg : ∀ k, k < g.length → ¬ (START <+: (g ++ START).drop k)) (i : Nat)
+    (hi : i < (g ++ [0x1b, 0x1b, 0x1b, 0x1b, 0x01, 0x01, 0x01]).length) :
+    ¬ pre 8 <+: ((g ++ [0x1b, 0x1b, 0x1b, 0x1b, 0x01, 0x01, 0x01]).take (i + 1)).reverse ++ [] := by
+  intro h
+  rw [List.append_nil, pre8, List.reverse_prefix] at h
+  obtain ⟨x, hx⟩ := h
+  have hsplit : g ++ START = (g ++ [0x1b, 0x1b, 0x1b, 0x1b, 0x01, 0x01, 0x01]) ++ [0x01] := by
+    simp [START]
+  have hlen : i + 1 ≤ (g ++ [0x1b, 0x1b, 0x1b, 0x1b, 0x01, 0x01, 0x01]).length := by omega
+  have htake : (g ++ START).take (i + 1) = x ++ START := by
+    rw [hsplit, List.take_append_of_le_length hlen, hx]
+  have hxl : x.length + 8 = i + 1 := by
+    have := congrArg List.length hx
+    simp only [List.length_append, List.length_take] at this
+    simp only [List.length_append] at hlen
+    have h8 : START.length = 8 := rfl
+    rw [h8] at this
+    simp only [List.length_cons, List.length_nil] at this hlen
+    omega
+  have hxg : x.length < g.length := by
+    simp only [List.length_append, List.length_cons, List.length_nil] at hi
+    omega
+  apply hg x.length hxg
+  have hfull : g ++ START = x ++ (START ++ (g ++ START).drop (i + 1)) := by
+    rw [← List.append_assoc, ← htake, List.take_append_drop]
+  refine ⟨(g ++ START).drop (i + 1), ?_⟩
+  conv => rhs; rw [hfull]
+  rw [List.drop_left]
+
+/-- Noise `g` that does not contain the start sequence (also not overlapping with the start
+sequence that follows), then the start sequence: silence, and at the last byte of the start
+sequence the number of noise bytes is reported (nothing if there was no noise).  The decoder is
+then in the post-START state; zero cache and buffer are untouched. -/
+theorem noise_start (d : Dec) (hst : d.st = .look 0 0) (g : List UInt8)
+    (hg : ∀ k, k < g.length → ¬ (START <+: (g ++ START).drop k)) :
+    Dec.pushAll d (g ++ START) =
+      ({ d with raw := 8, crc := startCrc, st := .normal },
+        List.replicate (g.length + 7) Out.none ++
+          [if g = [] then Out.none else Out.err (.discarded g.length)]) := by
+  have hsplit : g ++ START = (g ++ [0x1b, 0x1b, 0x1b, 0x1b, 0x01, 0x01, 0x01]) ++ [0x01] := by
+    simp [START]
+  obtain ⟨disc', k', ht, hsum, hq⟩ := look_quiet (g ++ [0x1b, 0x1b, 0x1b, 0x1b, 0x01, 0x01, 0x01]) []
+    d 0 0 tracks_nil hst (free_prefix hg)
+  have hhit : delta k' 0x01 = 8 := by
+    rw [hit_iff ht]
+    exact ⟨g.reverse, by simp [pre]⟩
+  obtain ⟨hk7, _⟩ := (delta_eq_8 ht.le).1 hhit
+  subst hk7
+  have hdisc : disc' = g.length := by
+    simp only [List.length_append, List.length_cons, List.length_nil] at hsum
+    omega
+  subst hdisc
+  have hlast := pushByte_look_hit (b := 0x01)
+    (d := { d with raw := d.raw + (g ++ [0x1b, 0x1b, 0x1b, 0x1b, 0x01, 0x01, 0x01]).length,
+                   st := .look g.length 7 }) rfl (by omega) hhit
+  rw [hsplit, Dec.pushAll_append, Dec.pushAll_quiet hq]
+  have hl : (g ++ [0x1b, 0x1b, 0x1b, 0x1b, 0x01, 0x01, 0x01]).length = g.length + 7 := by simp
+  rw [hl] at hlast ⊢
+  by_cases hg0 : g = []
+  · have hpos : ¬ (g.length > 0) := by simp [hg0]
+    rw [if_neg hpos] at hlast
+    simp only [Dec.pushAll, Dec.push, hlast, if_pos hg0]
+  · have hpos : g.length > 0 := List.length_pos_iff.2 hg0
+    rw [if_pos hpos] at hlast
+    simp only [Dec.pushAll, Dec.push, hlast, if_neg hg0]
+
+open Spec (frame) in
+/-- Noise, then a frame, for any decoder that is looking for a start sequence with nothing
+discarded and an empty buffer. -/
+theorem noise_frame (d : Dec) (hst : d.st = .look 0 0) (hz : d.zc = 0) (hb : d.buf.rdata = [])
+    (g m : List UInt8) (hg : ∀ k, k < g.length → ¬ (START <+: (g ++ START).drop k))
+    (hm : fitsCap d.buf.cap m.length) :
+    (Dec.pushAll d (g ++ frame m)).2 =
+        List.replicate (g.length + 7) Out.none ++
+          [if g = [] then Out.none else Out.err (.discarded g.length)] ++
+          List.replicate ((frame m).length - 9) Out.none ++ [Out.msg m] ∧
+      (Dec.pushAll d (g ++ frame m)).1.st = .done ∧
+      (Dec.pushAll d (g ++ frame m)).1.buf.data = m := by
+  have hsplit : g ++ frame m = (g ++ START) ++ (frame m).drop 8 := by
+    rw [List.append_assoc, ← Dec.frame_eq_START_drop8]
+  obtain ⟨h1, h2, h3, _, _⟩ := frame_tail_decodes
+    { d with raw := 8, crc := startCrc, st := .normal } m rfl rfl (by simp only) hz hb hm
+  rw [hsplit, Dec.pushAll_append, noise_start d hst g hg]
+  simp only [h1, h2, h3, List.append_assoc, and_self]
+
+/-! ### a start sequence in the middle of a transmission -/
+
+/-- In state `Normal` the start sequence is read as an escape sequence with payload `01010101`:
+everything received so far is dropped and reported when its last byte arrives. -/
+theorem restart (d : Dec) (hst : d.st = .normal) :
+    Dec.pushAll d START =
+      ({ d with raw := 8, zc := 0, buf := d.buf.clear, crc := startCrc, st := .normal },
+        List.replicate 7 Out.none ++ [Out.err (.discarded d.raw)]) := by
+  obtain ⟨r, c, s, z, bf⟩ := d
+  simp only at hst
+  subst hst
+  have h8 : ¬ (r + 1 + 1 + 1 + 1 + 1 + 1 + 1 + 1 < 8) := by omega
+  have hr : r + 1 + 1 + 1 + 1 + 1 + 1 + 1 + 1 - 8 = r := by omega
+  simp [Dec.pushAll, Dec.push, Dec.pushByte, START, Quad.set, Quad.zero, Dec.pushEscComplete,
+    h8, hr, List.replicate]
+
+/-! ### prefixes of a frame -/
+
+theorem pushAll_raw_le (s : List UInt8) : ∀ {d : Dec}, Dec.Inv d →
+    (Dec.pushAll d s).1.raw ≤ d.raw + s.length := by
+  induction s with
+  | nil => intro d _; simp [Dec.pushAll]
+  | cons b bs ih =>
+    intro d h
+    rw [Dec.pushAll_cons]
+    have h1 := ih (Dec.push_inv h b)
+    have h2 := Dec.pushByte_raw_le h b
+    rw [← Dec.push_fst] at h2
+    simp only [List.length_cons]
+    omega
+
+open Spec (frame) in
+/-- A frame cut off at a point where the decoder is in state `Normal`: nothing has been reported,
+and `raw` counts exactly the bytes of the cut-off part. -/
+theorem cut_frame (cap : Option Nat) (m : List UInt8) (k : Nat) (hroom : fitsCap cap m.length)
+    (hst : (Dec.pushAll (Dec.fresh cap) ((frame m).take k)).1.st = .normal) :
+    (Dec.pushAll (Dec.fresh cap) ((frame m).take k)).2 =
+        List.replicate ((frame m).take k).length Out.none ∧
+      (Dec.pushAll (Dec.fresh cap) ((frame m).take k)).1.raw = ((frame m).take k).length ∧
+      (Dec.pushAll (Dec.fresh cap) ((frame m).take k)).1.buf.cap = cap := by
+  obtain ⟨d', hd, hfin⟩ := Dec.frame_delivers (Dec.fresh cap) m rfl rfl rfl hroom
+  have hrun := hd.pushAll
+  obtain ⟨_, _, _, _, _, _, hdone, _⟩ := id hd
+  have hlen9 : 9 ≤ (frame m).length := by rw [length_frame]; omega
+  have hk : k < (frame m).length := by
+    rcases Nat.lt_or_ge k (frame m).length with h | h
+    · exact h
+    · rw [List.take_of_length_le h, hrun] at hst
+      rw [hdone] at hst
+      cases hst
+  have hal : ((frame m).take k).length = k := by simp; omega
+  have hinv := Dec.pushAll_inv ((frame m).take k) (Dec.inv_fresh cap)
+  refine ⟨?_, ?_, Dec.pushAll_cap _ (Dec.inv_fresh cap)⟩
+  · rw [Dec.pushAll_take, hrun, hal, List.take_append_of_le_length (by simp; omega)]
+    simp
+    omega
+  · have hle := pushAll_raw_le ((frame m).take k) (Dec.inv_fresh cap)
+    have hsplit := Dec.pushAll_append ((frame m).take k) (Dec.fresh cap) ((frame m).drop k)
+    rw [List.take_append_drop, hrun] at hsplit
+    have hd' := congrArg Prod.fst hsplit
+    simp only at hd'
+    have hle2 := pushAll_raw_le ((frame m).drop k) hinv
+    rw [← hd', hfin.raw] at hle2
+    have hf0 : (Dec.fresh cap).raw = 0 := rfl
+    simp only [List.length_drop] at hle2
+    omega
+
+open Spec (frame) in
+/-- with enough room for the payload the capacity does not influence the control state reached
+inside a frame -/
+theorem cut_state_cap (cap : Option Nat) (m : List UInt8) (k : Nat) (hroom : fitsCap cap m.length) :
+    (Dec.pushAll (Dec.fresh cap) ((frame m).take k)).1.st =
+      (Dec.pushAll (Dec.fresh none) ((frame m).take k)).1.st := by
+  obtain ⟨d', hd, _⟩ := Dec.frame_delivers (Dec.fresh cap) m rfl rfl rfl hroom
+  have hrun := hd.pushAll
+  have e : Dec.fresh cap = (Dec.fresh none).withCapR cap := rfl
+  rcases Dec.pushAll_rel cap ((frame m).take k) (Dec.fresh none) rfl (Dec.fitsCap_zero cap) with
+    ⟨g1, _⟩ | ⟨i, hi, g1, _⟩
+  · rw [e, g1]
+    rfl
+  · exfalso
+    rw [← e, List.take_take, Dec.pushAll_take, hrun] at g1
+    have hmem : Out.err DecErr.oom ∈
+        (List.replicate ((frame m).length - 1) Out.none ++ [Out.msg m]).take (min (i + 1) k) := by
+      rw [g1]; simp
+    have := List.mem_of_mem_take hmem
+    simp at this
+
+open Spec (frame) in
+/-- Any input `a` after which the decoder is silently in state `Normal` with `raw = |a|`
+(an unfinished transmission), followed by a frame: the unfinished part is reported as discarded
+when the start sequence is complete, then the frame is delivered. -/
+theorem resync_after (d : Dec) (a m : List UInt8)
+    (hout : (Dec.pushAll d a).2 = List.replicate a.length Out.none)
+    (hst : (Dec.pushAll d a).1.st = .normal) (hraw : (Dec.pushAll d a).1.raw = a.length)
+    (hm : fitsCap (Dec.pushAll d a).1.buf.cap m.length) :
+    (Dec.pushAll d (a ++ frame m)).2 =
+        List.replicate (a.length + 7) Out.none ++ [Out.err (.discarded a.length)] ++
+          List.replicate ((frame m).length - 9) Out.none ++ [Out.msg m] ∧
+      (Dec.pushAll d (a ++ frame m)).1.st = .done ∧
+      (Dec.pushAll d (a ++ frame m)).1.buf.data = m := by
+  obtain ⟨h1, h2, h3, _, _⟩ := frame_tail_decodes
+    { (Dec.pushAll d a).1 with raw := 8, zc := 0, buf := (Dec.pushAll d a).1.buf.clear,
+                               crc := startCrc, st := .normal } m rfl rfl (by simp only) rfl rfl hm
+  have hsplit : a ++ frame m = a ++ (START ++ (frame m).drop 8) := by
+    rw [← Dec.frame_eq_START_drop8]
+  rw [hsplit, Dec.pushAll_append, Dec.pushAll_append, restart _ hst, hout, hraw]
+  simp only [h1, h2, h3, and_self, and_true]
+  simp [List.replicate_add]
+
+open Spec (frame) in
+theorem cut_then_frame (cap : Option Nat) (m1 m2 : List UInt8) (k : Nat)
+    (hroom : fitsCap cap m1.length)
+    (hst : (Dec.pushAll (Dec.fresh cap) ((frame m1).take k)).1.st = .normal)
+    (hm : fitsCap cap m2.length) :
+    (Dec.pushAll (Dec.fresh cap) ((frame m1).take k ++ frame m2)).2 =
+        List.replicate (((frame m1).take k).length + 7) Out.none ++
+          [Out.err (.discarded ((frame m1).take k).length)] ++
+          List.replicate ((frame m2).length - 9) Out.none ++ [Out.msg m2] ∧
+      (Dec.pushAll (Dec.fresh cap) ((frame m1).take k ++ frame m2)).1.st = .done ∧
+      (Dec.pushAll (Dec.fresh cap) ((frame m1).take k ++ frame m2)).1.buf.data = m2 := by
+  obtain ⟨h1, h2, h3⟩ := cut_frame cap m1 k hroom hst
+  exact resync_after _ _ _ h1 hst h2 (by rw [h3]; exact hm)
+
+open Spec (frame stuff ctr) in
+/-- A transmission cut off inside the payload, after the (stuffed) payload bytes `p`, at a point
+where no run of 0x1b is pending (`ctr 0 p = 0`), then a frame. -/
+theorem cut_payload_then_frame (cap : Option Nat) (p m : List UInt8) (hc : ctr 0 p = 0)
+    (hp : fitsCap cap p.length) (hm : fitsCap cap m.length) :
+    (Dec.pushAll (Dec.fresh cap) ((START ++ stuff p) ++ frame m)).2 =
+        List.replicate ((START ++ stuff p).length + 7) Out.none ++
+          [Out.err (.discarded (START ++ stuff p).length)] ++
+          List.replicate ((frame m).length - 9) Out.none ++ [Out.msg m] ∧
+      (Dec.pushAll (Dec.fresh cap) ((START ++ stuff p) ++ frame m)).1.st = .done ∧
+      (Dec.pushAll (Dec.fresh cap) ((START ++ stuff p) ++ frame m)).1.buf.data = m := by
+  have h8 := start_decodes (Dec.fresh cap) rfl
+  have hS : Dec.St { Dec.fresh cap with st := .normal, raw := 8, crc := startCrc } 8 startCrc
+      (Dec.stOf 0) cap [] := ⟨rfl, rfl, rfl, rfl, rfl, by simp [Dec.fresh]⟩
+  obtain ⟨d1, data1, hq, hs, _⟩ := Dec.sim_stuff p _ 0 8 startCrc cap [] (by omega) hS
+    (by simpa using hp)
+  rw [hc, Dec.stOf_zero] at hs
+  have hrun : Dec.pushAll (Dec.fresh cap) (START ++ stuff p) =
+      (d1, List.replicate (START ++ stuff p).length Out.none) := by
+    rw [Dec.pushAll_append, h8]
+    simp only
+    have : Spec.stuffFrom 0 p = stuff p := rfl
+    rw [this] at hq
+    rw [Dec.pushAll_quiet hq]
+    simp [List.replicate_add, START]
+  refine resync_after _ _ _ (by rw [hrun]) (by rw [hrun]; exact hs.st) ?_ (by rw [hrun, hs.cap]; exact hm)
+  rw [hrun]
+  have := hs.raw
+  simp only [List.length_append] at this ⊢
+  have h8l : START.length = 8 := rfl
+  rw [h8l]
+  exact this
 
 end Resync
 end Sml
